@@ -86,3 +86,44 @@ _load0 = load
 def load(reg):          # noqa: F811
     _load0(reg)
     load_seqref(reg)
+
+
+def axiom_sanity(reg):
+    """Vacuity guard for the assumed axiom sets: each set together with concrete witness facts that
+    are true in the standard model must not be refutable (a solver answering 'unsat' here means the
+    axioms -- or the solver -- are unsound for this fragment, and nothing proved with them counts)."""
+    import subprocess, tempfile, os
+
+    def check_set(name):
+        def run(table):
+            axs = [f for f, _ in reg.axiom_sets.get(name, [])]
+            SI = z3.SeqSort(z3.IntSort())
+            ks, k, k2 = z3.Const("w_ks", SI), z3.Int("w_k"), z3.Int("w_k2")
+            wit = [z3.Contains(ks, z3.Unit(k)), z3.Length(ks) == 2, ks[0] == k, ks[1] == k2, k != k2]
+            if "nodup_ref" in reg.ufuns:
+                wit.append(reg.ufuns["nodup_ref"](ks))
+            res = []
+            s = z3.Solver()
+            s.set("timeout", 5000)
+            for a in axs + wit:
+                s.add(a)
+            r1 = str(s.check())
+            smt = "(set-logic ALL)\n" + s.to_smt2()
+            smt = smt.replace("seq.nth_u", "seq.nth").replace("seq.nth_i", "seq.nth")
+            fd, path = tempfile.mkstemp(suffix=".smt2")
+            os.write(fd, smt.encode())
+            os.close(fd)
+            try:
+                out = subprocess.run(["/usr/bin/cvc5", "--strings-exp", "--tlimit=5000", path], capture_output=True, text=True, timeout=15).stdout
+            except Exception:
+                out = ""
+            finally:
+                os.unlink(path)
+            r2 = (out.strip().splitlines() or ["?"])[0]
+            ok = r1 != "unsat" and r2 != "unsat"
+            return [("axiom set '%s' (%d axioms) with concrete witnesses is not refutable" % (name, len(axs)), ok,
+                     "z3: %s, cvc5: %s" % (r1, r2))]
+        return run
+    users = {"seqref": ["C08"], "heap": ["C01"], "jhash": ["C13"], "seqstr": ["C13", "C18"]}
+    for name, props in users.items():
+        reg.ground_obligation("axiom-sanity:" + name, props, check_set(name))
